@@ -217,9 +217,129 @@ pub fn run(w: &mut Worker, l: &mut Local) {
     }
 }
 
+/// (B) two-step adversary closure: a requester who knows the key NAME but not the secret sends an
+/// unauthenticated first request and assembles the second one from the octets of the reply by a
+/// small grammar - the reply's TSIG record verbatim on another body; the reply's MAC / time / fudge
+/// (/ error / other data) in a fresh TSIG with original-id games; and the exact digest-collision
+/// layout (the reply embedded as RDATA of a filler record, original id = length of the first
+/// request's MAC field). He never had the key: NO second request may take effect, whatever a
+/// verifier says about its digest.
+pub fn closure(w: &mut Worker, l: &mut Local) {
+    let k1n = rt::labels_of(k1_name());
+    let alg = Alg::Sha256;
+    // the target: an update the adversary wants applied, and a signed-only transfer
+    let target_msg = Msg { prereqs: vec![], updates: vec![a("c.z.", 60, 9)] };
+    let target = vupd::raw::encode_update(0x4242, &target_msg, &vupd::raw::Layout::PLAIN);
+    let axfr_body = vupd::query_bytes(0x4242, "z.", RecordType::AXFR);
+    // the crafted first request of the collision layout: its MAC FIELD is the middle of request 2
+    let refusal_len = 12 + 3 + 4; // header + question z. SOA IN
+    let mut filler_fixed = vec![0u8]; // owner: root
+    filler_fixed.extend_from_slice(&10u16.to_be_bytes()); // TYPE NULL
+    filler_fixed.extend_from_slice(&1u16.to_be_bytes());
+    filler_fixed.extend_from_slice(&0u32.to_be_bytes());
+    filler_fixed.extend_from_slice(&(refusal_len as u16).to_be_bytes());
+    let mut p = target[2..].to_vec();
+    p[8..10].copy_from_slice(&1u16.to_be_bytes()); // ARCOUNT - 1 = the filler only
+    p.extend_from_slice(&filler_fixed);
+    let first_body = vupd::raw::encode_update(0x1111, &Msg::default(), &vupd::raw::Layout::PLAIN);
+    let tsig_with = |mac: Vec<u8>, time: u64, orig_id: u16| rt::TsigRr { name: k1n.clone(), class: 255, ttl: 0, alg_name: alg.labels(), time, fudge: 300, mac, orig_id, error: 0, other: vec![] };
+    let h = honest(Kind::UpdAdd, alg, 300, T0);
+    let hs = rt::split(&h).expect("splits");
+    let hun = rt::strip(&h, &hs);
+    let mut flipped = hs.tsig.clone();
+    flipped.mac[0] ^= 0x80;
+    let mut firsts: Vec<(String, Vec<u8>)> = vec![
+        ("bad-mac:fresh".into(), rt::attach(&hun, &flipped)),
+        ("bad-mac:stale".into(), rt::attach(&hun, &rt::TsigRr { time: T0 - 10_000, ..flipped.clone() })),
+        ("bad-mac:time-signed=1".into(), rt::attach(&hun, &rt::TsigRr { time: 1, ..flipped.clone() })),
+        ("unknown-key".into(), rt::attach(&hun, &rt::TsigRr { name: rt::labels_of("kx."), ..hs.tsig.clone() })),
+        ("unsigned".into(), hun.clone()),
+        ("mac-field=chosen-octets:time-signed=1".into(), rt::attach(&first_body, &tsig_with(p.clone(), 1, 0x1111))),
+        ("mac-field=chosen-octets:fresh".into(), rt::attach(&first_body, &tsig_with(p.clone(), T0, 0x1111))),
+    ];
+    firsts.push(("axfr:bad-mac:stale".into(), {
+        let ha = honest(Kind::Axfr, alg, 300, T0 - 10_000);
+        let s = rt::split(&ha).expect("splits");
+        let mut t = s.tsig.clone();
+        t.mac[0] ^= 0x80;
+        rt::attach(&rt::strip(&ha, &s), &t)
+    }));
+    for (fname, fbytes) in &firsts {
+        let env = fresh(w, &base_zone());
+        let s0 = w.rt.block_on(env.snapshot());
+        let first = Req { name: fname.clone(), bytes: fbytes.clone(), now: T0 };
+        let Ok(r1) = send(w, &env, &first) else { continue };
+        let reply = r1.as_ref().and_then(|v| v.first().cloned()).unwrap_or_default();
+        if w.rt.block_on(env.snapshot()) != s0 {
+            // the first request itself took effect: Part A's business
+            continue;
+        }
+        let rs = rt::split(&reply).ok();
+        let first_mac_len = rt::split(fbytes).map(|s| s.tsig.mac.len()).unwrap_or(0) as u16;
+        let mut seconds: Vec<(String, Vec<u8>)> = vec![];
+        if let Some(rs) = &rs {
+            let rt_ = &rs.tsig;
+            for (bname, body) in [("update", &target), ("axfr", &axfr_body)] {
+                seconds.push((format!("{bname}+reply-tsig-verbatim"), rt::attach(body, rt_)));
+                for (oname, oid) in [("body-id", 0x4242u16), ("0", 0), ("first-mac-length", first_mac_len), ("reply-original-id", rt_.orig_id)] {
+                    seconds.push((format!("{bname}+reply-mac-time-fudge:original-id={oname}"), rt::attach(body, &rt::TsigRr { name: k1n.clone(), class: 255, ttl: 0, alg_name: alg.labels(), time: rt_.time, fudge: rt_.fudge, mac: rt_.mac.clone(), orig_id: oid, error: 0, other: vec![] })));
+                    seconds.push((format!("{bname}+reply-mac-time-fudge-error-other:original-id={oname}"), rt::attach(body, &rt::TsigRr { name: k1n.clone(), class: 255, ttl: 0, alg_name: alg.labels(), time: rt_.time, fudge: rt_.fudge, mac: rt_.mac.clone(), orig_id: oid, error: rt_.error, other: rt_.other.clone() })));
+                }
+            }
+            // the digest-collision layout: id | first request's MAC field | reply without TSIG | TSIG copied
+            let reply_unsigned = rt::strip(&reply, rs);
+            if let Ok(fs) = rt::split(fbytes) {
+                let mut b = 0x4242u16.to_be_bytes().to_vec();
+                let mut mid = fs.tsig.mac.clone();
+                if mid.len() >= 10 {
+                    // ARCOUNT on the wire counts the TSIG too
+                    let ar = u16::from_be_bytes([mid[8], mid[9]]).wrapping_add(1);
+                    mid[8..10].copy_from_slice(&ar.to_be_bytes());
+                }
+                b.extend_from_slice(&mid);
+                b.extend_from_slice(&reply_unsigned);
+                b.extend_from_slice(&rt::TsigRr { name: k1n.clone(), class: 255, ttl: 0, alg_name: alg.labels(), time: rt_.time, fudge: rt_.fudge, mac: rt_.mac.clone(), orig_id: first_mac_len, error: rt_.error, other: rt_.other.clone() }.encode());
+                seconds.push(("digest-collision-layout(reply-embedded-as-filler-rdata)".into(), b));
+            }
+        }
+        // without any reply octets: the first request's own TSIG on the target
+        if let Ok(fs) = rt::split(fbytes) {
+            seconds.push(("update+first-request-tsig-verbatim".into(), rt::attach(&target, &fs.tsig)));
+        }
+        for (sname, sbytes) in &seconds {
+            l.eval();
+            let env = fresh(w, &base_zone());
+            let _ = send(w, &env, &first);
+            let second = Req { name: sname.clone(), bytes: sbytes.clone(), now: T0 };
+            let case = || json!({"two_step_closure": true, "variant": var().to_json(), "first": fname, "first_hex": hex::enc(fbytes), "first_now": T0, "reply_hex": hex::enc(&reply), "second": sname, "second_hex": hex::enc(sbytes), "second_now": T0});
+            match send(w, &env, &second) {
+                Err((msg, loc)) => l.violation(&panic_key("server", &msg, &loc), &format!("the server panicked on a request assembled from its own reply: {msg}"), case),
+                Ok(r2) => {
+                    let s2 = w.rt.block_on(env.snapshot());
+                    let answers: usize = r2.iter().flatten().map(|r| wire::read_header(r).map(|h| h.an as usize).unwrap_or(0)).sum();
+                    let is_axfr = sname.starts_with("axfr");
+                    if s2 != s0 || (is_axfr && answers > 0) {
+                        l.violation(
+                            &format!("two-step-forgery[first:{fname}]:{sname}:took-effect"),
+                            &format!("a requester without the key got the server to {} with a second request assembled from the reply to an unauthenticated first request; reference verifier on the second request: {:?}", if is_axfr { "transfer the zone" } else { "apply an update" }, rt::verify_request(sbytes, &ref_keys(0, alg), T0)),
+                            case,
+                        );
+                    } else {
+                        l.outcome("two-step-closure:no-effect");
+                    }
+                }
+            }
+        }
+    }
+}
+
 /// Replay of one recorded sequence.
 pub fn replay(w: &mut Worker, case: &Value, l: &mut Local) {
     set_var(Var::from_json(&case["variant"]));
+    if case["two_step_closure"].as_bool() == Some(true) {
+        closure(w, l);
+        return;
+    }
     let req = |p: &str| Req { name: case[p].as_str().unwrap_or("").to_string(), bytes: hex::dec(case[&format!("{p}_hex")].as_str().unwrap_or("")).unwrap_or_default(), now: case[&format!("{p}_now")].as_u64().unwrap_or(T0) };
     let (f, s) = (req("first"), req("second"));
     let kind = wire::walk(&s.bytes).ok().map(|w| if w.header.opcode() == 5 { Kind::UpdAdd } else { Kind::Axfr });
